@@ -1387,10 +1387,15 @@ def _run_special(case, ctx):
         # every entry becomes a few Python objects (about 1 KiB for a 21-byte entry): linear, with a large constant -- the
         # allowance follows the number of entries; what this family decides is the time rule below
         ok = _execute(ctx, case, None, raws[1], subject, drv, {}, ((len(raws[1]) + len(raws[4])) // 21) * 512)
+        if ok:
+            # the two decodes once more without the step and memory meters (their per-step cost is linear and would blur the
+            # ratio): four times the table may cost about four times the processor time
+            with ctx.watch(case, 600):
+                drv(None)
         if ok and times.get(1) is not None:
             ctx.maxi("hyperv_table_full_s_x1000", int(1000 * times[1]))
             ctx.maxi("hyperv_table_full_over_quarter_time_permille", int(1000 * times[1] / max(times[4], 1e-3)))
-            if times[1] > 6.0 and times[1] > 7 * times[4]:
+            if times[1] > 3.0 and times[1] > 5.5 * times[4]:
                 ctx.violation(case, {"subject": subject, "kind": "time-not-linear-in-input"},
                               {"quarter_table_s": round(times[4], 2), "full_table_s": round(times[1], 2), "table_bytes": 2 << 20})
                 return False
